@@ -1082,6 +1082,19 @@ impl<'x, 'a, 'ast> Visit<'ast> for PassA<'x, 'a> {
                         }
                     }
                 }
+                // X10: core::ptr::read(E.as_ptr()) -> maybe_uninit_read(&E)   (raw-pointer read, unreadable for Verus)
+                if seg.ident == "read" && c.args.len() == 1 {
+                    let ptxt: String = self.w.src[lo(p.span())..hi(p.span())].chars().filter(|c| !c.is_whitespace()).collect();
+                    if ptxt == "core::ptr::read" || ptxt == "ptr::read" || ptxt == "std::ptr::read" {
+                        if let syn::Expr::MethodCall(m) = &c.args[0] {
+                            if m.method == "as_ptr" && m.args.is_empty() {
+                                let recv = self.w.src[lo(m.receiver.span())..hi(m.receiver.span())].to_string();
+                                self.w.rewrite("X10", lo(c.span()), hi(c.span()), format!("maybe_uninit_read(&{})", recv));
+                                return;
+                            }
+                        }
+                    }
+                }
                 // X3: Box::pin(E) -> PinBox::new(E)
                 let ptxt: String = self.w.src[lo(p.span())..hi(p.span())].chars().filter(|c| !c.is_whitespace()).collect();
                 if ptxt == "Box::pin" {
